@@ -61,9 +61,10 @@ def sexpr(term):
     return term if isinstance(term, str) else term.sexpr().replace("\n", " ")
 
 
-def truth(term, timeout_ms=10000):
-    """True / False / None (Z3 undecided or oracle failure). term: z3 expr or SMT-LIB text"""
-    r = _ask({"op": "truth", "term": sexpr(term), "timeout_ms": timeout_ms})
+def truth(term, timeout_ms=10000, decls=()):
+    """True / False / None (Z3 undecided or oracle failure). term: z3 expr or SMT-LIB text; decls: names of free String
+    constants (the term is then judged for validity over all their values)"""
+    r = _ask({"op": "truth", "term": sexpr(term), "timeout_ms": timeout_ms, "decls": list(decls)})
     return None if r is None else r["value"]
 
 
